@@ -232,11 +232,13 @@ def check_environment(c, radius, group=None):
                 r = check_environment_of(c, mols[k], radius, D, I, u, F, f"molecule_environment(molecule {k})")
                 if r:
                     return r
-        envs = c.molecule_environments(radius=radius)
-        for k, (m, e_, p_) in enumerate(envs):
-            r = compare_environment(c, np.asarray(m.positions), e_, p_, radius, I, u, F, f"molecule_environments()[{k}]")
-            if r:
-                return r
+        # all at once, and again with a smaller radius on the same crystal object
+        for rad in (radius, 0.6 * radius):
+            envs = c.molecule_environments(radius=rad)
+            for k, (m, e_, p_) in enumerate(envs):
+                r = compare_environment(c, np.asarray(m.positions), e_, p_, rad, I, u, F, f"molecule_environments()[{k}]")
+                if r:
+                    return r
         return None
     mol = mols[0]
     if group is not None:
@@ -386,18 +388,103 @@ def correspond(ctx):
     ctx.count("correspondence_lines", n + len(lines))
 
 
+def judge_exact(seed):
+    """atoms exactly ON the cut-off: cubic P1 cells whose edge is a power of two, atoms on quarter positions, radius a whole number of
+    edges, so every distance and the comparison with the radius are exact in binary floating point; the expected set comes from
+    integer arithmetic (distance^2 <= radius^2 in units of a/4). "Within the radius" includes the boundary."""
+    import random
+    from chmpy.core.element import Element
+    from chmpy.crystal import AsymmetricUnit, Crystal, SpaceGroup
+    from chmpy.crystal.unit_cell import UnitCell
+    rng = random.Random(seed)
+    a = rng.choice([2.0, 4.0, 8.0])
+    n = rng.choice([1, 1, 2, 3])
+    sites = set()
+    while len(sites) < n:
+        sites.add(tuple(rng.randrange(4) for _ in range(3)))
+    sites = sorted(sites)
+    els = [Element[rng.choice([6, 7, 8, 18])] for _ in sites]
+    c = Crystal(UnitCell.cubic(a), SpaceGroup(1), AsymmetricUnit(els, np.array(sites, dtype=float) / 4.0))
+    k = rng.choice([1, 1, 2, 3] if a > 2 else [1, 2, 3, 5])
+    radius = k * a
+    u = c.unit_cell_atoms()
+    Fq = np.rint(np.asarray(u["frac_pos"]) * 4).astype(int)          # quarter units
+    if len(Fq) != len(sites) or sorted(map(tuple, Fq)) != sites:
+        return "exact", f"unit_cell_atoms of the P1 test crystal are not its {len(sites)} sites"
+    R2 = (4 * k) ** 2
+    rngc = range(-k - 1, k + 2)
+
+    def expected(centre_q, exclude_self):
+        out = set()
+        for ai, f in enumerate(Fq):
+            for h in rngc:
+                for kk in rngc:
+                    for l in rngc:
+                        d = f + 4 * np.array([h, kk, l]) - centre_q
+                        d2 = int(d @ d)
+                        if d2 <= R2 and not (exclude_self and d2 == 0):
+                            out.add((ai, (h, kk, l)))
+        return out
+    try:
+        oq = np.array(rng.choice([sites[0], tuple(rng.randrange(-4, 8) for _ in range(3))]))
+        r = c.atoms_in_radius(radius, origin=tuple(oq / 4.0 * a))
+        rows = {(int(x), tuple(int(y) for y in cell)) for x, cell in zip(r["uc_atom"], r["cell"])}
+        want = expected(oq, False)
+        if rows != want or len(r["uc_atom"]) != len(want):
+            on = sum(1 for (ai, cell) in want - rows)
+            return "exact", (f"cubic a={a}, sites/4={sites}: atoms_in_radius({radius}, origin={tuple(oq / 4.0 * a)}) returned {len(r['uc_atom'])} atoms, "
+                             f"{len(want)} periodic images lie within the radius ({on} missing, {len(rows - want)} extra; atoms at exactly the radius count as within)")
+        res = c.atomic_surroundings(radius=radius)
+        D = np.asarray(c.unit_cell.direct)
+        I = np.linalg.inv(D)
+        F = np.asarray(u["frac_pos"], dtype=float)
+        for i, sres in enumerate(res):
+            want = expected(np.array(sites[i]), True)
+            keys = [key_of(c, pp, I, F) for pp in sres["neighbours"]["cart_pos"]]
+            if None in keys or len(set(keys)) != len(keys) or set(keys) != want:
+                return "exact", (f"cubic a={a}, sites/4={sites}: atomic_surroundings(radius={radius}) site {i}: {len(keys)} neighbours reported, "
+                                 f"{len(want)} periodic images lie within the radius (atoms at exactly the radius count as within)")
+    except Exception as ex:  # noqa
+        return "exact", f"exact-boundary query raised {type(ex).__name__}: {ex}"
+    return "exact", None
+
+
 def judge(seed):
     import random
     rng = random.Random(seed)
-    which = rng.choice(["air", "air", "surround", "env", "env", "group"])
+    which = rng.choice(["air", "air", "surround", "env", "env", "group", "exact"])
+    if which == "exact":
+        tag, r = judge_exact(seed)
+        return "exact:cubic", r, True
     kind, c = random_crystal(rng, molecular=which in ("env", "group"))
     if c is None:
         return None, None, True
     ang = np.degrees(c.unit_cell.angles)
     nontrivial = bool(np.any(np.abs(ang - 90) > 10))
+    # a crystal whose atoms were moved in place (X-H bond lengths normalised) after it had already answered a query is still a crystal
+    history = which in ("env", "group") and rng.random() < 0.35
     for _ in range(6):
         radius = rng.choice([rng.uniform(1.0, 6.0), rng.uniform(6.0, 14.0), 12.0, rng.uniform(14, 25)]) if which in ("air", "surround") else rng.choice([rng.uniform(2.0, 9.0), rng.uniform(9.0, 14.0)])
         try:
+            if history:
+                uc_ = c.unit_cell
+                small = 0.9 / max(uc_.a_star, uc_.b_star, uc_.c_star)      # the 3x3x3 block of cells around the origin
+                if which == "env":
+                    check_environment(c, radius)
+                c.atomic_surroundings(radius=min(radius, 6.0))
+                c.atoms_in_radius(small)
+                c.atoms_in_radius(radius)
+                c.normalize_hydrogen_bondlengths()
+                kind = kind + "+moved"
+                history = False
+                # the same questions again, the most recent one first
+                for rr, oo in ((radius, np.zeros(3)), (small, np.zeros(3))):
+                    r = check_air(c, rr, oo)
+                    if r and r != "skip":
+                        return which + ":" + kind, "after normalize_hydrogen_bondlengths: " + r, nontrivial
+                r = check_surroundings(c, min(radius, 6.0))
+                if r and r != "skip":
+                    return which + ":" + kind, "after normalize_hydrogen_bondlengths: " + r, nontrivial
             if which == "air":
                 fo = np.array([rng.uniform(-3, 4) if rng.random() < 0.3 else rng.uniform(0, 1) for _ in range(3)])
                 r = check_air(c, radius, fo @ np.asarray(c.unit_cell.direct))
